@@ -185,6 +185,13 @@ def known_findings(prop):
 
 # ------------------------------------------------------------------ comparison
 
+def case_tags(cfg, c):
+    """the projection of a property; .dig documents may add tags of their own (the file's signal list, its tests)"""
+    if c.get("kind") == "dig" and cfg.get("dig_tags"):
+        return tuple(cfg["tags"]) + tuple(cfg["dig_tags"])
+    return cfg["tags"]
+
+
 def trace_lines(trace, tags):
     out = []
     for tag, rest in trace:
@@ -386,7 +393,7 @@ def run_check(prop, tier, seed):
                 it = impl.get(c["id"])
                 mt = mod.get(c["id"]) if cfg.get("model", True) else None
                 evaluations += 1
-                proj = trace_lines(it or [], cfg["tags"])
+                proj = trace_lines(it or [], case_tags(cfg, c))
                 h = hashlib.sha1("\n".join(proj).encode()).hexdigest()
                 if cfg["nontrivial"](c, it or []):
                     if h not in distinct:
@@ -404,7 +411,7 @@ def run_check(prop, tier, seed):
                 if long_rng:
                     dist["skipped:draw-log-too-long"] = dist.get("skipped:draw-log-too-long", 0) + 1
                 if cfg.get("model", True) and not c.get("no_model") and not long_rng:
-                    d = compare_case(c, it, mt, cfg["tags"])
+                    d = compare_case(c, it, mt, case_tags(cfg, c))
                     if d is not None:
                         mismatches.append((c, profile, d))
                 for o in cfg.get("oracles", []):
